@@ -110,8 +110,12 @@ def _alpha_notes() -> Dict[str, Any]:
 #  C10 (separator-free fields)            <- C01: positional matching of the k-th name against the k-th operand
 #  C07 (every node is unit-aligned)       <- C01..C06: an operator / $not / capture assumes that its neighbours end on a unit boundary
 #  C14 (the configuration is this rule's) <- C01..C07, C11, C12: flags, range and sections in effect are those of the rule being run
+#  C14 also                                <- C08, C09, C10, C16: which instructions enter the stream, and with which operands, depends on
+#                                            the observers installed from the configuration in effect (valid_addr_range)
+#  C08 (the stream is the listing's lines) <- C01, C07, C11: "consecutive instructions of the listing / of the input", "leftmost in the listing"
 PRESUPPOSES = {"C10": ["C01"], "C07": ["C01", "C02", "C03", "C04", "C05", "C06"],
-               "C14": ["C01", "C02", "C03", "C04", "C05", "C06", "C07", "C11", "C12"]}
+               "C14": ["C01", "C02", "C03", "C04", "C05", "C06", "C07", "C11", "C12", "C08", "C09", "C10", "C16"],
+               "C08": ["C01", "C07", "C11"]}
 DRIVER_ALSO = {"C01", "C02", "C03", "C04", "C05", "C06", "C07", "C20"}
 MEM_LIMIT = int(os.environ.get("VERIF_MEM_GB", "6")) << 30
 SCEN_TIMEOUT = int(os.environ.get("VERIF_SCENARIO_TIMEOUT", "300"))
